@@ -436,6 +436,33 @@ pub proof fn lemma_measure_push(stack: Seq<u16>, indices: Seq<usize>, g: u16)
         assert(i2.subrange(1, i2.len() as int) =~= ir.push(0usize));
     }
 }
+pub proof fn lemma_measure_advance(stack: Seq<u16>, indices: Seq<usize>)
+    requires wf_tables(), it_inv(stack, indices), stack.len() > 0,
+        indices[stack.len() - 1] < sub_of(stack[stack.len() - 1] as int).len(),
+        sub_of(stack[stack.len() - 1] as int)[indices[stack.len() - 1] as int] is Element,
+    ensures it_measure(stack, indices.update(stack.len() - 1, (indices[stack.len() - 1] + 1) as usize)) + 1 == it_measure(stack, indices)
+    decreases stack.len()
+{
+    let last = stack.len() - 1;
+    let i2 = indices.update(last, (indices[last] + 1) as usize);
+    if stack.len() == 1 {
+        assert(i2[0] == indices[0] + 1);
+    } else {
+        let sr = stack.subrange(1, stack.len() as int);
+        let ir = indices.subrange(1, indices.len() as int);
+        assert(it_inv(sr, ir)) by {
+            assert forall|k: int| 0 <= k < sr.len() implies #[trigger] sr[k] < n_dt() by { assert(sr[k] == stack[k + 1]); }
+            assert forall|k: int| 0 <= k < sr.len() - 1 implies (#[trigger] ir[k]) < sub_of(sr[k] as int).len() && sub_of(sr[k] as int)[ir[k] as int] == SubElement::Group(sr[k + 1]) by {
+                assert(ir[k] == indices[k + 1]); assert(sr[k] == stack[k + 1]); assert(sr[k + 1] == stack[k + 2]);
+            }
+        }
+        assert(ir[sr.len() - 1] == indices[last]);
+        assert(sr[sr.len() - 1] == stack[last]);
+        lemma_measure_advance(sr, ir);
+        assert(i2.subrange(1, i2.len() as int) =~= ir.update(sr.len() - 1, (ir[sr.len() - 1] + 1) as usize));
+        assert(i2[0] == indices[0]);
+    }
+}
 pub proof fn lemma_measure_pop(stack: Seq<u16>, indices: Seq<usize>)
     requires wf_tables(), it_inv(stack, indices), stack.len() > 0,
         indices[stack.len() - 1] >= sub_of(stack[stack.len() - 1] as int).len(),
@@ -695,10 +722,15 @@ def fns(sz):
                ensures=['it_inv(final(self).type_id_stack@, final(self).indices@)',
                         'final(self).type_id_stack@.len() > 0 ==> old(self).type_id_stack@.len() > 0 && final(self).type_id_stack@[0] == old(self).type_id_stack@[0]',
                         'r matches Some((name, et, mask, named)) ==> old(self).type_id_stack@.len() > 0 && et_ok(et) && et == et_of(et.def) && name == t_el(et.def as int).name '
-                        '&& exists|p: Seq<usize>| resolve(old(self).type_id_stack@[0] as int, p) == Some((et.def, mask))'],
+                        '&& exists|p: Seq<usize>| resolve(old(self).type_id_stack@[0] as int, p) == Some((et.def, mask))',
+                        'r matches Some((name, et, mask, named)) ==> named == (match sn_mask(et.typ as int) { Some(m) => m, None => 0u32 })',
+                        'r is Some ==> it_measure(final(self).type_id_stack@, final(self).indices@) < it_measure(old(self).type_id_stack@, old(self).indices@)'],
                decreases='it_measure(old(self).type_id_stack@, old(self).indices@)',
                proofs=[dict(at='body_start', text='proof { axiom_tables(); }'),
                        dict(before=r'^\s*Some\(\(name, ElementType::new\(\*idx\), version_mask, is_named\)\)', text='''proof {
+    assert(sub_of(current_type as int)[cur_pos as int] == t_sub(start_idx + cur_pos));
+    lemma_measure_advance(old(self).type_id_stack@, old(self).indices@);
+    assert(self.indices@ =~= old(self).indices@.update(depth as int, (cur_pos + 1) as usize));
     let st = old(self).type_id_stack@; let ix = old(self).indices@;
     lemma_resolve_prefix(st, ix, 0, seq![cur_pos]);
     assert(sub_of(current_type as int)[cur_pos as int] == t_sub(start_idx + cur_pos));
